@@ -4,6 +4,7 @@ request.  Model: Model/Block.lean; histories of entry-point calls
 (Lemmas/BlockTrace.lean).
 -/
 import CoapLite.Lemmas.BlockTrace
+import CoapLite.Lemmas.Request
 import CoapLite.Lemmas.BlockSession
 import CoapLite.Lemmas.Shape.Block
 import CoapLite.Lemmas.Shape.BlockValue
@@ -63,6 +64,39 @@ theorem reply_ids_response (M : Nat) (req : Request) (st : BlockState) :
     out.1.response.map corr = req.response.map corr ∧ out.1.message = req.message ∧
     out.1.source = req.source :=
   coreResponse_corr M req st
+
+/-- … composed with C07: for a request object built by `from_packet` from the message `p` (any token the
+header can announce), every reply the handler leaves in it – after `intercept_request` or after the
+application's reply went through `intercept_response` with its correlation fields untouched – carries
+`p`'s message id and `p`'s token, whatever the cache held -/
+theorem reply_carries_the_request_ids (M : Nat) (p : Packet) (src : Nat) (st : BlockState) (r : Request)
+    (hr : Request.fromPacket p src = .ok r) (ht : p.token.length ≤ 15) :
+    (coreRequest M r st).1.response.map corr = r.response.map corr ∧
+    (∀ reply, r.response = some reply → corr reply = (p.header.mid, p.token)) ∧
+    (∀ (r' : Request), r'.response.map corr = r.response.map corr →
+      (coreResponse M r' st).1.response.map corr = r.response.map corr) := by
+  refine ⟨(coreRequest_corr M r st).1, ?_, ?_⟩
+  · intro reply hreply
+    obtain ⟨r0, h0, _, _, hnew⟩ := Lemmas.fromPacket_spec p src ht
+    rw [hr] at h0
+    injection h0 with h0
+    subst h0
+    rw [Lemmas.response_new_spec p ht] at hnew
+    injection hnew with hnew
+    rw [hreply] at hnew
+    by_cases h1 : p.header.typeBits = 0
+    · rw [if_pos h1] at hnew
+      injection hnew with hnew
+      rw [← hnew]; rfl
+    · rw [if_neg h1] at hnew
+      by_cases h2 : p.header.typeBits = 1
+      · rw [if_pos h2] at hnew
+        injection hnew with hnew
+        rw [← hnew]; rfl
+      · rw [if_neg h2] at hnew
+        cases hnew
+  · intro r' hr'
+    rw [(coreResponse_corr M r' st).1, hr']
 
 /-- the entry points are exactly the core run on the effective (live) state of
 the request's own key, and leave every other key's effective state untouched -/
